@@ -148,7 +148,7 @@ def run_case(arg):
         for n, sz in (("tf1.txt", 10), ("inner/tf2.txt", 200)):
             with open(os.path.join(tmpfs_dir, n), "wb") as f:
                 f.write(b"T" * sz)
-        troot = os.path.join(d, r.choice(["t", "t", "t-1", "t.1", "tż", "t (x)"]))
+        troot = os.path.join(d, r.choice(["t", "t", "t-1", "t.1", "tż", "t (x)", "t [old]", "t{1,2}", "t*s", "q?x", "b\\s"]))
         roots, dirs, files = gen_tree(r, troot, tmpfs_dir)
         cwd = r.choice([troot, troot, roots[0], d])
         o = sample_opts(r, troot, roots, dirs)
